@@ -588,6 +588,10 @@ func attGenPlan(g gen.G, idx int, gaps bool) *attPlan {
 		if g.Chance(1, 8) {
 			size = 1
 		}
+		emptyFile := !many && !escHeavy && g.Chance(1, 25)
+		if emptyFile {
+			size = 0 // an empty file (a log that holds nothing): announced, opened, one empty chunk, closed
+		}
 		mn := maxName
 		if budget < mn+8 { // the 0x1210 body (10-bit length field) must hold every announced name: keep the sum below 1023 bytes
 			mn = 40
@@ -617,6 +621,18 @@ func attGenPlan(g gen.G, idx int, gaps bool) *attPlan {
 			}
 			chunks = append(chunks, [2]int{off, l})
 		}
+		if emptyFile {
+			chunks = [][2]int{{0, 0}}
+		}
+		// an empty chunk at the end-of-file offset (where no data chunk starts): first thing after the 0x1211, or anywhere between
+		// the data chunks. It carries no bytes and must change nothing — in particular not the number of answers.
+		emptyChunkAt := -1
+		if !emptyFile && g.Chance(1, 12) {
+			emptyChunkAt = 0
+			if g.Bool() {
+				emptyChunkAt = g.Intn(len(chunks) + 1)
+			}
+		}
 		switch g.Intn(3) {
 		case 1:
 			sort.Slice(chunks, func(a, b int) bool { return chunks[a][0] > chunks[b][0] })
@@ -642,6 +658,9 @@ func attGenPlan(g gen.G, idx int, gaps bool) *attPlan {
 				if len(keep) > 1 && g.Chance(1, 3) { // an identical resend among the chunks that do arrive
 					k := g.Intn(len(keep) - 1)
 					keep = append(keep[:k+1], append([][2]int{keep[k]}, keep[k+1:]...)...)
+				}
+				if emptyChunkAt >= 0 {
+					keep = append([][2]int{{size, 0}}, keep...)
 				}
 				f.Chunks, f.Resend = keep, miss
 				sort.Slice(f.Resend, func(a, b int) bool { return f.Resend[a][0] < f.Resend[b][0] })
@@ -683,12 +702,20 @@ func attGenPlan(g gen.G, idx int, gaps bool) *attPlan {
 			k := g.Intn(len(chunks) - 1)
 			chunks = append(chunks[:k+1], append([][2]int{chunks[k]}, chunks[k+1:]...)...)
 		}
+		if emptyChunkAt >= 0 {
+			k := min(emptyChunkAt, len(chunks))
+			chunks = append(chunks[:k:k], append([][2]int{{size, 0}}, chunks[k:]...)...)
+		}
 		f.Chunks = chunks
-		f.PostDup = g.Chance(1, 4)
+		f.PostDup = g.Chance(1, 4) && !emptyFile
 		p.Files = append(p.Files, f)
 	}
 	p.BigWrites = g.Bool()
-	if p.Order == "" && len(p.Files[0].Chunks) > 1 && g.Chance(1, 5) {
+	hasEmpty := false // (a retry is placed "before the file is complete": counted in data chunks, so plans with an empty chunk in file 0 have none)
+	for _, ch := range p.Files[0].Chunks {
+		hasEmpty = hasEmpty || ch[1] == 0
+	}
+	if p.Order == "" && len(p.Files[0].Chunks) > 1 && !hasEmpty && g.Chance(1, 5) {
 		p.ReAnnounce = 1 + g.Intn(len(p.Files[0].Chunks)-1)
 	}
 	return p
